@@ -9,7 +9,7 @@ LEAN_MODULES = ["Mingus.Props.C09", "Mingus.Tie.C09"]
 RULE = ("the 80-value vocabulary (10 base values x dots 0..4, x triplet/quintuplet/septuplet) built with the library's own "
         "constructors and analysed; every vocabulary value x perturbations {+-1%, +-0.5%, +-0.1%} and the doubles adjacent to "
         "every branch threshold at every scale; seeded random positive doubles; add/subtract on all ordered pairs of a 20-value "
-        "subset; beat units: integers -8..1100, 2^k and 2^k+-1 up to 2^40, halves, thirds, 1e308, inf, -inf, nan; counts -3..24. "
+        "subset and every vocabulary value with itself; beat units as ints and as integral floats: integers -8..1100, 2^k and 2^k+-1 up to 2^40, halves, thirds, 1e308, inf, -inf, nan; counts -3..24. "
         "Floats travel as exact fractions. Every meter call runs under a 2 s alarm (a timeout is the observation Hang)")
 EXHAUSTIVE = {"quick": False, "thorough": False}
 ASSUMPTIONS = ["integers beyond 2^53 as beat units are not generated (float conversion inside the halving loop loses their low bits)"]
@@ -103,10 +103,20 @@ def cases(tier, rng):
                 yield Case("value.add", [F(a), F(b)], "add")
                 yield Case("value.subtract", [F(a), F(b)], "subtract")
                 yield Case("value.addsub", [F(a), F(b)], "addsub", model=False)
+    for a in [x for x, w in voc] + [3, 5, 6, 7, 12, 0.75, 1.5]:       # a value added to itself (its difference is a division by zero)
+        yield Case("value.add", [F(a), F(a)], "add/equal")
+        yield Case("value.addsub", [F(a), F(a)], "addsub/equal", model=False)
     beats = list(range(-8, 1101)) + [2 ** k for k in range(11, 41)] + [2 ** k + 1 for k in range(1, 41)] + [2 ** k - 1 for k in range(2, 41)]
     beats += [F(1, 2), F(1, 4), F(3, 2), F(5, 2), F(1, 3), F(2, 3), F(7, 4), F(-1, 2), F(1e308), F(2.0 ** 1000), F(1e-300), "inf", "-inf", "nan"]
     for b in beats:
         yield Case("meter.valid_beat_duration", [b], "beat/" + ("special" if isinstance(b, str) else "int" if isinstance(b, int) else "frac"))
+    # the same numbers as Python floats (4.0 == 4): the predicates are about the number, not its type
+    floats = ["1.0", "2.0", "3.0", "4.0", "6.0", "8.0", "16.0", "12.0", "0.0", "-4.0", "1024.0", "1000.0", "4294967296.0"]
+    for b in floats:
+        yield Case("meter.valid_beat_duration", [b], "beat/float", model=False)
+        for c in (3, 4, 6, 9, 0, -3):
+            for f in ("meter.is_valid", "meter.is_simple", "meter.is_compound", "meter.is_asymmetrical"):
+                yield Case(f, [c, b], f.split(".")[1] + "/float", model=False)
     for c in range(-3, 25):
         for b in [1, 2, 3, 4, 6, 8, 16, 0, -4, 12, 64, F(1, 2), F(5, 2), "inf", "nan", 1024, 1000]:
             for f in ("meter.is_valid", "meter.is_simple", "meter.is_compound", "meter.is_asymmetrical"):
@@ -114,7 +124,10 @@ def cases(tier, rng):
 
 def is_pow2(b):
     if isinstance(b, str):
-        return False
+        x = float(b)
+        if not math.isfinite(x):
+            return False
+        b = F(x)
     q = F(b)
     return q >= 1 and q.denominator == 1 and (q.numerator & (q.numerator - 1)) == 0
 
